@@ -189,6 +189,22 @@ def _corrupt_ci_release_name_set(o):
     o.release.name = set(["Fedora"])
 
 
+def _corrupt_rpms_payload_set(o):
+    o.rpms["Server"]["x86_64"]["bash-0:4.3-1.fc23.src"]["bash-0:4.3-1.fc23.x86_64"]["path"] = set([1, 2])
+
+
+def _corrupt_modules_payload_bytes(o):
+    o.modules["Server"]["x86_64"]["perl:5.26:20180101:abcdef"]["rpms"].append(b"perl.rpm")
+
+
+def _corrupt_extra_payload_object(o):
+    o.extra_files["Server"]["x86_64"][0]["size"] = object()
+
+
+def _corrupt_im_checksum_value_set(o):
+    sorted((i for v in o.images.values() for a in v.values() for i in a), key=lambda i: i.path)[-1].checksums = {"sha256": set([1])}
+
+
 # real invalid values whose defect sits in a nested part: (base, corrupting function)
 REAL = [
     ("composeinfo:flat", _corrupt_ci_label), ("composeinfo:layered", _corrupt_ci_release),
@@ -205,6 +221,9 @@ REAL = [
     ("images:grid", _corrupt_im_additional_variants_set), ("images:grid", _corrupt_im_checksums_list),
     ("images:v11", _corrupt_im_volume_id_bytes), ("composeinfo:forest", _corrupt_ci_variant_name_bytes),
     ("composeinfo:flat", _corrupt_ci_release_name_set),
+    # payload tables are stored as given: values the file format cannot represent only fail when the text is built
+    ("rpms", _corrupt_rpms_payload_set), ("modules", _corrupt_modules_payload_bytes), ("extra_files", _corrupt_extra_payload_object),
+    ("images:grid", _corrupt_im_checksum_value_set),
 ]
 REAL_BY_NAME = {"%s/%s" % (b, f.__name__[9:]): (b, f) for b, f in REAL}
 
@@ -351,7 +370,7 @@ def describe(tier):
         "rule": "for each of 12 base objects (composeinfo flat/forest/layered, images grid/1.1, rpms, modules, extra files, "
                 "treeinfo flat/nested(with main_variant)/layered, discinfo): every validator invocation made during dump(path) - "
                 "those of the top-level validate() and those made inside nested section writers - fails once (injected ValueError), "
-                "for both pre-states {no file, previous good copy}; plus 27 really invalid values (16 out-of-domain nested values, 11 wrong-typed values of validated fields that the file writer could not emit).  Oracle: dump raises and "
+                "for both pre-states {no file, previous good copy}; plus 31 really invalid values (16 out-of-domain nested values, 11 wrong-typed values of validated fields, 4 unencodable values in payload tables that are stored as given).  Oracle: dump raises and "
                 "the path has exactly its pre-state (same bytes / still absent), no other file appears.  Non-trivial: a failure "
                 "point inside a nested writer (beyond the top-level check) or a real invalid value.",
         "bound": "one failure per dump; all injection points of each base object",
